@@ -82,7 +82,7 @@ def seam():
 _N = [0]
 
 
-def run_task(cls, kwargs, root):
+def run_task(cls, kwargs, root, want_cmdline=True):
     """real `Task(**kwargs)(cache_root=fresh)` with the seam patched.
     -> dict(stage, err, argv, cmdargs, cmdline, cmdline_err)"""
     from pydra.utils.general import attrs_values
@@ -97,6 +97,7 @@ def run_task(cls, kwargs, root):
     cache.mkdir(parents=True)
     out["stage"] = "run"
     cwd = os.getcwd()
+    rec = []
     try:
         with seam() as rec:
             task(cache_root=cache)
@@ -116,6 +117,8 @@ def run_task(cls, kwargs, root):
         out["cmdargs"] = list(task._command_args(values=attrs_values(task)))
     except Exception as e:  # noqa
         out["cmdargs_err"] = f"{type(e).__name__}: {str(e)[:200]}"
+    if not want_cmdline:
+        return out
     try:
         out["cmdline"] = task.cmdline
     except Exception as e:  # noqa
